@@ -365,10 +365,11 @@ func (rep *Report) writeEvidence(def *propDef, violations int) {
 			"predictions_compared": t.Predicted, "containers_accepted": t.Accepted, "strict_rejected_ops": t.StrictBad,
 			"variant_executions_compared_pairwise": t.Pairs, "divergences": t.Divs})
 		if t.Name == "repo-tests" && rep.RepoStats != nil {
-			stages[len(stages)-1]["source"] = "the repository's own test-suite run with the trace hooks of /repo/verif_trace.go (build tag verif); argument values not observed"
+			stages[len(stages)-1]["source"] = "the repository's own test-suite run with the trace hooks of /repo/verif_trace.go (build tag verif); argument values identified by pointer where possible"
 			stages[len(stages)-1]["hook_events"] = rep.RepoStats.Events
 			stages[len(stages)-1]["containers_in_the_test_suite"] = rep.RepoStats.Containers
 			stages[len(stages)-1]["containers_left_out"] = rep.RepoStats.Skipped
+			stages[len(stages)-1]["argument_values_identified_by_pointer"] = fmt.Sprintf("%d of %d", rep.RepoStats.Identified, rep.RepoStats.ArgValues)
 		}
 	}
 	for _, s := range rep.Specials {
